@@ -631,7 +631,7 @@ def inline_simple_calls(func: FuncInfo, e: ast.AST, depth: int = 2) -> ast.AST:
 	return T().visit(copy.deepcopy(e))
 
 
-def merged_function(func: FuncInfo, depth: int = 2, full: bool = False) -> ast.AST:
+def merged_function(func: FuncInfo, depth: int = 2, full: bool = False, stmts: bool = False) -> ast.AST:
 	"""copy of func (alias-expanded; fully inlined with full=True) in which every `return <call of a same-class private helper / nested function>` is replaced
 	by the helper's own (expanded) body with its parameters substituted by the call arguments (`cast(T, x)` arguments stand for x). A branch body that was
 	moved into `__loads_tree(entry)` is then analysed where it is used."""
@@ -683,6 +683,42 @@ def merged_function(func: FuncInfo, depth: int = 2, full: bool = False) -> ast.A
 				body = [s_ for s_ in gx.body if not (isinstance(s_, ast.Expr) and isinstance(s_.value, ast.Constant))]
 				for s_ in body:
 					ast.copy_location(s_, s_)
+				return body or [ast.Pass()]
+
+			def visit_Expr(self, node: ast.Expr):
+				# with stmts=True: a call statement of a private helper that returns nothing (a procedure: `cls._push(blocks, text, begin, index)`) is
+				# replaced by the helper's body, when the helper assigns to none of its parameters
+				g = helper_of(f, node.value) if (stmts and d > 0) else None
+				if g is None or id(g) in stack:
+					return node
+				if any(isinstance(x, ast.Return) and x.value is not None for x in ast.walk(g.node)) or any(isinstance(x, (ast.Yield, ast.YieldFrom)) for x in ast.walk(g.node)):
+					return node
+				c = node.value
+				params = [a.arg for a in g.node.args.posonlyargs + g.node.args.args]
+				if params and params[0] in ('self', 'cls') and isinstance(c.func, ast.Attribute):
+					params = params[1:]
+				if any(isinstance(x, ast.Name) and isinstance(x.ctx, ast.Store) and x.id in params for x in ast.walk(g.node)) or any(isinstance(a, ast.Starred) for a in c.args):
+					return node
+				binding = dict(list(zip(params, c.args)) + [(kw.arg, kw.value) for kw in c.keywords if kw.arg])
+				if set(params) - set(binding):
+					return node
+
+				class S2(ast.NodeTransformer):
+					def visit_Name(self, n: ast.Name):
+						if isinstance(n.ctx, ast.Load) and n.id in binding:
+							return copy.deepcopy(binding[n.id])
+						return n
+				gx = S2().visit(copy.deepcopy(base(g)))
+				inline_in(gx, g, d - 1, stack + (id(g),))
+				body = [s_ for s_ in gx.body if not (isinstance(s_, ast.Expr) and isinstance(s_.value, ast.Constant))]
+				# a bare `return` inside the helper only ends the helper: keep the inlining to helpers without one
+				if any(isinstance(x, ast.Return) for s_ in body for x in ast.walk(s_)):
+					return node
+				# the inlined statements stand where the call stood: position-based orderings (stores between a test and its use) must see them there
+				for s_ in body:
+					for x in ast.walk(s_):
+						if hasattr(x, 'lineno'):
+							x.lineno, x.col_offset, x.end_lineno, x.end_col_offset = node.lineno, node.col_offset, node.end_lineno, node.end_col_offset
 				return body or [ast.Pass()]
 		T().visit(owner)
 	root = copy.deepcopy(base(func))
